@@ -320,3 +320,54 @@ def emit_ty(t):
     if k == "delim":
         return "(TDelim %s %s)" % (emit_ty(t["i"]), G.z(t["ext"]))
     raise ValueError(k)
+
+
+# ---------------------------------------------------------------------------------------------------------------
+# offsets (mirror of coq/Layout/Offsets.v on operator-tree JSON; used for cost guards only) and BitLengthSet builder
+
+
+def _leaf(v):
+    return {"o": "leaf", "v": [v], "how": "int", "raw": False}
+
+
+def field_offset_ops(t, base):
+    k = t["k"]
+    if k == "struct":
+        off = {"o": "pad", "c": base, "a": 8}
+        out = []
+        for _, f in t["fs"]:
+            o = {"o": "pad", "c": off, "a": align_of(f)}
+            out.append(o)
+            off = {"o": "cat", "cs": [o, to_op(f)]}
+        return out
+    if k == "union":
+        tag = _width_for((len(t["fs"]) - 1).bit_length())
+        o = {"o": "cat", "cs": [{"o": "pad", "c": base, "a": 8}, _leaf(tag)]}
+        return [o for _ in t["fs"]]
+    if k == "delim":
+        return field_offset_ops(t["i"], {"o": "cat", "cs": [base, _leaf(32)]})
+    return []
+
+
+def elem_offset_op(e, base, i):
+    return {"o": "cat", "cs": [{"o": "pad", "c": base, "a": align_of(e)}, {"o": "rep", "c": to_op(e), "k": i}]}
+
+
+def build_bls(op):
+    """BitLengthSet for an operator-tree JSON (leaf / pad / rep / rrep / cat / uni)."""
+    from pydsdl import BitLengthSet
+
+    o = op["o"]
+    if o == "leaf":
+        return BitLengthSet(set(op["v"]))
+    if o == "pad":
+        return build_bls(op["c"]).pad_to_alignment(op["a"])
+    if o == "rep":
+        return build_bls(op["c"]).repeat(op["k"])
+    if o == "rrep":
+        return build_bls(op["c"]).repeat_range(op["k"])
+    if o == "cat":
+        return BitLengthSet.concatenate([build_bls(c) for c in op["cs"]])
+    if o == "uni":
+        return BitLengthSet.unite([build_bls(c) for c in op["cs"]])
+    raise ValueError(o)
